@@ -145,6 +145,9 @@ type Worker struct {
 	reader *VReader // the reader of its current deployment
 	killed bool
 	exited chan struct{} // closed when both processes of the worker have returned
+	// control-plane calls of the job (Deploy, retention updates) that are executing inside the worker: Kill waits
+	// for them, so that nothing of a killed worker still writes to its directory when the case removes it
+	inflight sync.WaitGroup
 	ExitErr error
 }
 
@@ -330,6 +333,14 @@ func (c *Cluster) Kill(w *Worker) {
 	case <-w.done:
 	case <-time.After(Watchdog):
 	}
+	{
+		d := make(chan struct{})
+		go func() { w.inflight.Wait(); close(d) }()
+		select {
+		case <-d:
+		case <-time.After(Watchdog):
+		}
+	}
 	if db := w.Op.VerifDB(); db != nil {
 		d := make(chan struct{})
 		go func() { db.WaitOnTasks(); close(d) }()
@@ -433,6 +444,12 @@ func (c *Cluster) TickCheckpoint() (ok bool) {
 			ok = false
 		}
 	}()
+	// The frozen clock's Ticker.Stop is a no-op, the real clock's is not: the job stops its checkpoint ticker
+	// whenever it leaves Running and creates a new one when it is Running again. Firing the ticker in any other
+	// status would be a schedule the real system cannot produce.
+	if c.Job == nil || c.Job.VerifStatus() != "Running" {
+		return false
+	}
 	c.JobClock.TickEvery("checkpointing")
 	return true
 }
@@ -461,6 +478,23 @@ func (c *Cluster) OpAcks() []OpAck {
 	defer c.mu.Unlock()
 	return append([]OpAck{}, c.opAcks...)
 }
+// RedeployedInPlace names a node that accepted two Deploy calls ("" if none): the trigger of the known finding
+// in-place-redeploy.
+func (c *Cluster) RedeployedInPlace() string {
+	c.mu.Lock()
+	defer c.mu.Unlock()
+	n := map[string]int{}
+	for _, d := range c.deploys {
+		if d.Err == nil && !d.DeadNode {
+			n[d.Node]++
+			if n[d.Node] > 1 {
+				return d.Node
+			}
+		}
+	}
+	return ""
+}
+
 func (c *Cluster) Deploys() []DeployRec {
 	c.mu.Lock()
 	defer c.mu.Unlock()
@@ -598,6 +632,18 @@ func (a *opAd) target() *Worker {
 	return w
 }
 
+// enter is target for control-plane calls: the call is counted as executing inside the worker until leave.
+func (a *opAd) enter() (*Worker, func()) {
+	a.c.mu.Lock()
+	defer a.c.mu.Unlock()
+	w := a.c.byOp[a.node.Id]
+	if w == nil || w.Dead {
+		return nil, func() {}
+	}
+	w.inflight.Add(1)
+	return w, w.inflight.Done
+}
+
 func (a *opAd) HandleEventBatch(ctx context.Context, b []*workerpb.Event) error {
 	w := a.target()
 	if w == nil {
@@ -648,7 +694,8 @@ func wmNanos(sec int64, nanos int32) int64 {
 }
 
 func (a *opAd) Deploy(ctx context.Context, r *workerpb.DeployOperatorRequest) error {
-	w := a.target()
+	w, leave := a.enter()
+	defer leave()
 	rec := DeployRec{Tick: lib.Tick.Add(1), Node: a.node.Id, Kind: "operator", DeadNode: w == nil}
 	for _, m := range r.Operators {
 		rec.Members = append(rec.Members, m.Id)
@@ -696,7 +743,8 @@ func (a *opAd) Deploy(ctx context.Context, r *workerpb.DeployOperatorRequest) er
 }
 
 func (a *opAd) UpdateRetainedCheckpoints(ctx context.Context, ids []uint64) error {
-	w := a.target()
+	w, leave := a.enter()
+	defer leave()
 	if w == nil {
 		return errors.New("verif: operator unreachable")
 	}
